@@ -45,19 +45,30 @@ def scripts(tier):
 _S = {}
 
 
+def _deepcopy(p):
+    import copy
+    return copy.deepcopy(p)
+
+
 def gen(spec, lv):
-    tier, i = spec
+    tier, i = spec[:2]
+    post = spec[2] if len(spec) > 2 else None
     if tier not in _S:
         _S[tier] = scripts(tier)
     modes = []
     sub = c11.Sub(lv, modes)
     lines = [l % sub if "%(" in l else l for l in _S[tier][i]]
     pre = [z3.Distinct(modes)] if lv.symbolic and len(modes) > 1 else []
-    return {"text": "\n".join(lines) + "\n", "pre": pre, "order": True, "what": ("ops", "modes", "params")}
+    g = {"text": "\n".join(lines) + "\n", "pre": pre, "order": True, "what": ("ops", "modes", "params")}
+    if post == "deepcopy":
+        g["post"] = _deepcopy        # a copy of the program must carry transforms that still compute the written formula
+    return g
 
 
 def gen_specs(tier, seed):
-    return [(tier, i) for i in range(len(scripts(tier))) if "q0*0" not in " ".join(scripts(tier)[i])]
+    base = [(tier, i) for i in range(len(scripts(tier))) if "q0*0" not in " ".join(scripts(tier)[i])]
+    multi = [s for s in base if len(set(__import__("re").findall(r"q\d+", " ".join(scripts(tier)[s[1]])))) >= 2]
+    return base + [s + ("deepcopy",) for s in (multi if tier == "thorough" else multi[::2])]
 
 
 def main():
